@@ -8,6 +8,7 @@ pure str/bytes/dict/set methods, and the ``string`` module's constants.
 from __future__ import annotations
 
 import ast
+import copy
 import operator
 import string as _string
 from typing import Any, Dict, Optional
@@ -33,6 +34,7 @@ _BUILTINS = {
     "bytes": bytes, "any": any, "all": all, "sum": sum, "abs": abs,
 }
 _CALLABLE_BUILTINS = {k for k, v in _BUILTINS.items() if callable(v)}
+_MUTATING = ("update", "append", "extend", "add", "setdefault", "insert", "discard", "remove", "pop", "clear", "sort", "reverse")
 
 _PURE_METHODS = {
     str: {"join", "lower", "upper", "encode", "format", "split", "strip", "lstrip", "rstrip",
@@ -121,6 +123,49 @@ class ConstEval:
                                     prov[e.id] = st.lineno
                 elif isinstance(st, ast.AugAssign) and isinstance(st.target, ast.Name):
                     env.pop(st.target.id, None)
+                elif isinstance(st, ast.For):
+                    # a table built by a loop over a constant sequence (`for group in (...): table.update(dict.fromkeys(group, group))`)
+                    stored = {n.id for n in ast.walk(st) if isinstance(n, ast.Name) and isinstance(n.ctx, ast.Store)} | \
+                        {c.func.value.id for c in ast.walk(st) if isinstance(c, ast.Call) and isinstance(c.func, ast.Attribute) and
+                         isinstance(c.func.value, ast.Name) and c.func.attr in _MUTATING}
+                    simple = not st.orelse and not any(isinstance(n, (ast.Break, ast.Continue, ast.If, ast.While, ast.Try, ast.With, ast.Return))
+                                                       for b in st.body for n in ast.walk(b))
+                    try:
+                        seq = list(self.eval(st.iter, mod, env)) if simple else None
+                    except (NotConstant, TypeError):
+                        seq = None
+                    if seq is None or len(seq) > 400:
+                        for nm in stored:
+                            env.pop(nm, None)
+                        continue
+                    ok = True
+                    for item in seq:
+                        if isinstance(st.target, ast.Name):
+                            env[st.target.id] = item
+                        elif isinstance(st.target, ast.Tuple) and all(isinstance(e, ast.Name) for e in st.target.elts) and \
+                                isinstance(item, (tuple, list)) and len(item) == len(st.target.elts):
+                            for e, v in zip(st.target.elts, item):
+                                env[e.id] = v
+                        else:
+                            ok = False
+                            break
+                        run(st.body)
+                    if not ok:
+                        for nm in stored:
+                            env.pop(nm, None)
+                elif isinstance(st, ast.Expr) and isinstance(st.value, ast.Call) and isinstance(st.value.func, ast.Attribute) and \
+                        isinstance(st.value.func.value, ast.Name) and st.value.func.attr in _MUTATING:
+                    nm = st.value.func.value.id
+                    if nm in env and isinstance(env[nm], (dict, list, set)) and not st.value.keywords:
+                        try:
+                            args = [self.eval(a, mod, env) for a in st.value.args]
+                            new = copy.copy(env[nm])
+                            getattr(new, st.value.func.attr)(*args)
+                            env[nm] = new
+                        except (NotConstant, TypeError, ValueError, KeyError):
+                            env.pop(nm, None)
+                    else:
+                        env.pop(nm, None)
                 elif isinstance(st, ast.If):
                     # version switches (`if version_info >= (3, 7)`): names assigned in
                     # either arm are not constant for us unless both arms agree
@@ -336,6 +381,13 @@ class ConstEval:
                 return v
             raise NotConstant("call %s" % f.id)
         if isinstance(f, ast.Attribute):
+            if isinstance(f.value, ast.Name) and f.value.id == "dict" and f.attr == "fromkeys" and not (local and "dict" in local) and \
+                    1 <= len(node.args) <= 2 and not node.keywords:
+                args = self._elts(node.args, ev)
+                try:
+                    return dict.fromkeys(*args)
+                except TypeError as e:
+                    raise NotConstant(str(e))
             recv = ev(f.value)
             for ty, names in _PURE_METHODS.items():
                 if type(recv) is ty and f.attr in names:
